@@ -85,14 +85,22 @@ func (r *Request) ToModel() map[string]any {
 		for _, s := range f.Services {
 			var ms []any
 			for _, m := range s.Methods {
-				mj := map[string]any{"name": m.Name, "input": m.Input, "output": m.Output, "has_config": m.Config != nil, "path": "", "verb_num": 0}
+				mh := []string{}
+				for _, h := range m.Headers {
+					mh = append(mh, h.Name)
+				}
+				mj := map[string]any{"name": m.Name, "input": m.Input, "output": m.Output, "has_config": m.Config != nil, "path": "", "verb_num": 0, "headers": mh}
 				if m.Config != nil {
 					mj["path"] = m.Config.Path
 					mj["verb_num"] = verbNums[m.Config.Method]
 				}
 				ms = append(ms, mj)
 			}
-			svcs = append(svcs, map[string]any{"name": s.Name, "base": s.BasePath, "methods": ms})
+			sh := []string{}
+			for _, h := range s.Headers {
+				sh = append(sh, h.Name)
+			}
+			svcs = append(svcs, map[string]any{"name": s.Name, "base": s.BasePath, "methods": ms, "headers": sh})
 		}
 		files = append(files, map[string]any{"name": f.Name, "generate": gen[f.Name], "go_pkg": f.GoPkgName(), "messages": msgs, "enums": enums, "services": svcs})
 	}
